@@ -233,8 +233,29 @@ def extract_all_layouts(ctx, include_wrappers=False):
 # ---------------------------------------------------------------------------
 # scancode automata
 
+def flat_scalars(v, out=None):
+    """Depth-first list of the scalar leaves of a (resolved) value."""
+    if out is None:
+        out = []
+    if v is None:
+        raise Undecided('uninitialised state field')
+    k = v[0]
+    if k in ('c', 'a', 't'):
+        out.append(v)
+    elif k == 'adt':
+        for x in v[3]:
+            flat_scalars(x, out)
+    elif k == 'arr':
+        for x in v[1]:
+            flat_scalars(x, out)
+    else:
+        raise Undecided('decoder state contains a %s value' % k)
+    return out
+
+
 class ScanTable:
-    """(state, byte) -> (result, post_state) for one ScancodeSet impl.
+    """(state, byte) -> (result, post_state) for one ScancodeSet impl.  A state is the tuple of the scalar
+    fields of the decoder object (whatever they are), so the table survives a change of representation.
     result: ('none',) | ('ev', keycode_idx, keystate_idx) | ('err', error_idx) | ('panic', what)"""
 
     def __init__(self, ctx, self_str, fn_path):
@@ -245,57 +266,113 @@ class ScanTable:
         self.leaves = eng.run(fn_path, arg_names=['self', 'code'])
         check_partition(eng, self.leaves)
         self.engine_stats = dict(eng.stats)
-        self.extra_atoms = [n for n in eng.full_doms if n not in ('self.state', 'code')]
-        self.cells = {}
-        R, O = 'core::result::Result', 'core::option::Option'
-        for li, lf in enumerate(self.leaves):
+        init_cell = eng.initial_store[('H', 'self')]
+        self.state_atoms = []
+        self.state_tks = []
+        for v in flat_scalars(init_cell):
+            if v[0] != 'a':
+                raise Undecided('decoder state field is not a plain input')
+            self.state_atoms.append(v[1])
+            self.state_tks.append(v[2])
+        for n in self.state_atoms + ['code']:
+            if eng.full_doms.get(n) is None:
+                raise Undecided('decoder state field %s has an unbounded domain' % n)
+        self.full = {n: eng.full_doms[n] for n in self.state_atoms + ['code']}
+        for lf in self.leaves:
             for n in lf.doms:
-                if n not in ('self.state', 'code'):
-                    raise Undecided('%s depends on input other than (state, byte): %s' % (fn_path, n))
-            for s in sorted(lf.doms['self.state']):
-                for c in sorted(lf.doms['code']):
-                    asg = {'self.state': s, 'code': c}
-                    if lf.kind != 'return':
-                        res = ('panic', lf.panic[0])
-                        post = None
-                    else:
-                        r = conc(lf.ret, asg)
-                        if r[0] != R:
-                            raise Undecided('advance_state returned non-Result')
-                        if r[1] == 1:
-                            res = ('err', r[2][0])
-                        else:
-                            o = r[2][0]
-                            if o[1] == 0:
-                                res = ('none',)
-                            else:
-                                kev = o[2][0]
-                                res = ('ev', kev[2][0], kev[2][1])
-                        cell = conc(lf.cells[('H', 'self')], asg)
-                        post = cell[2][0]
-                    if (s, c) in self.cells:
-                        raise Undecided('scancode classes overlap')
-                    self.cells[(s, c)] = (res, post, li)
-        n = len(ctx.dstates) * 256
-        if len(self.cells) != n:
-            raise Undecided('scancode table incomplete: %d of %d cells' % (len(self.cells), n))
+                if n not in self.full:
+                    raise Undecided('%s depends on input other than (decoder state, byte): %s' % (fn_path, n))
+        self.cells = {}     # cache (state, byte) -> (res, post, leaf index)
+        # index leaves by byte for fast lookup
+        self._by_byte = {}
+        for li, lf in enumerate(self.leaves):
+            for c in lf.doms['code']:
+                self._by_byte.setdefault(c, []).append(li)
+
+    def cell(self, s, c):
+        key = (s, c)
+        r = self.cells.get(key)
+        if r is not None:
+            return r
+        hit = None
+        for li in self._by_byte.get(c, ()):
+            lf = self.leaves[li]
+            if all(v in lf.doms[n] for n, v in zip(self.state_atoms, s)):
+                if hit is not None:
+                    raise Undecided('scancode classes overlap')
+                hit = li
+        if hit is None:
+            raise Undecided('scancode table has no class for state %s byte %02X' % (s, c))
+        lf = self.leaves[hit]
+        asg = dict(zip(self.state_atoms, s))
+        asg['code'] = c
+        R = 'core::result::Result'
+        if lf.kind != 'return':
+            res, post = ('panic', lf.panic[0]), None
+        else:
+            r = conc(lf.ret, asg)
+            if r[0] != R:
+                raise Undecided('advance_state returned non-Result')
+            if r[1] == 1:
+                res = ('err', r[2][0])
+            else:
+                o = r[2][0]
+                if o[1] == 0:
+                    res = ('none',)
+                else:
+                    kev = o[2][0]
+                    res = ('ev', kev[2][0], kev[2][1])
+            post = tuple(ev(x, asg) if x[0] != 'c' else x[1] for x in flat_scalars(lf.cells[('H', 'self')]))
+        out = (res, post, hit)
+        self.cells[key] = out
+        return out
 
     def where(self, s, c):
-        return leaf_where(self.leaves[self.cells[(s, c)][2]])
+        return leaf_where(self.leaves[self.cell(s, c)[2]])
+
+    def state_str(self, s):
+        if s is None:
+            return '-'
+        parts = []
+        for v, tk, n in zip(s, self.state_tks, self.state_atoms):
+            if tk.startswith('E:'):
+                parts.append(self.ctx.prog.variant_name(tk[2:], v))
+            else:
+                parts.append('%s=%d' % (n.split('.', 1)[-1], v))
+        return parts[0] if len(parts) == 1 else '(' + ', '.join(parts) + ')'
 
     def reachable(self, init):
-        """States reachable from `init` over the extracted transition relation, never
-        continuing through a panicking cell."""
+        """States reachable from `init` over the extracted transition relation (never continuing
+        through a panicking cell)."""
         seen = {init}
         work = [init]
         while work:
             s = work.pop()
             for c in range(256):
-                res, post, _ = self.cells[(s, c)]
+                res, post, _ = self.cell(s, c)
                 if post is not None and post not in seen:
+                    if len(seen) > 20000:
+                        raise Undecided('scancode decoder state space too large')
                     seen.add(post)
                     work.append(post)
         return seen
+
+    def all_states(self):
+        import itertools
+        n = 1
+        for a in self.state_atoms:
+            n *= len(self.full[a])
+        if n > 65536:
+            return None
+        return list(itertools.product(*[sorted(self.full[a]) for a in self.state_atoms]))
+
+    def trap_states(self):
+        """state cubes in which some byte traps (from the panic leaves)"""
+        out = []
+        for lf in self.leaves:
+            if lf.kind != 'return':
+                out.append({n: sorted(lf.doms[n]) for n in self.state_atoms})
+        return out
 
 
 def scancode_impls(ctx):
@@ -303,7 +380,7 @@ def scancode_impls(ctx):
 
 
 def initial_state_of(ctx, self_str):
-    """The DecodeState a `new()` of this scancode-set type constructs (from its const fn body)."""
+    """The decoder state a `new()` of this scancode-set type constructs (from its const fn body)."""
     path = None
     for f in ctx.facts['fns']:
         if f['name'] == 'new' and f.get('impl_self_str') == self_str and not f.get('impl_trait'):
@@ -314,8 +391,10 @@ def initial_state_of(ctx, self_str):
     leaves = eng.run(path)
     if len(leaves) != 1 or leaves[0].kind != 'return':
         raise Undecided('new() of %s is not a single straight path' % self_str)
-    v = conc(leaves[0].ret)
-    return v[2][0], path
+    fl = flat_scalars(leaves[0].ret)
+    if any(x[0] != 'c' for x in fl):
+        raise Undecided('new() of %s does not construct a constant state' % self_str)
+    return tuple(x[1] for x in fl), path
 
 
 def show_res(ctx, res):
